@@ -112,6 +112,26 @@ def subject_of_span(path, line):
     return None
 
 
+def subject_decl_text(path, idx):
+    """the declaration (items + attribute + struct) of subject module `idx` in a generated subject crate"""
+    try:
+        with open(path) as f:
+            lines = f.readlines()
+    except Exception:
+        return "subject %s" % idx
+    out, on = [], False
+    for l in lines:
+        if re.match(r"pub mod s%d \{" % idx, l):
+            on = True
+            continue
+        if on:
+            if "#[nutype(" in l or out:
+                out.append(l.strip())
+            if re.search(r"struct Nt\d+", l):
+                break
+    return "\n".join(out) if out else "subject %s" % idx
+
+
 def rt_build_failure(prop, tier, errs, tail):
     """The runtime pool holds only well-formed declarations of the documented grammar with glue that
     matches the error enum exhaustively. A compile error there is attributed:
@@ -347,6 +367,14 @@ def main(argv):
             if prop == "C09" and rep.get("subjects", 0) > 0:
                 import ccengine
                 ccengine.run_c09x(tier, rep)
+            if prop == "C12" and rep.get("subjects", 0) > 0:
+                # permission part ("only permitted together with finite"): in-process expansion of every
+                # finite-less float declaration x every derive set containing Eq or Ord
+                import ccengine
+                with Lock():
+                    mx = ccengine.run_mx("c12", tier)
+                ccengine.merge(rep, mx)
+                rep["rule"] = rep.get("rule", "") + " | MX: every float declaration spelling without `finite` x every derive subset (bounded size) containing Eq or Ord is expanded in-process and must be refused by the macro; non-vacuity: the same subsets granted once `finite` is declared are counted"
             return finish(prop, tier, rep, t0, RT_ASSUMPTIONS)
         if prop in CC_PROPS:
             import ccengine
